@@ -7,7 +7,9 @@
     reading the weights; then the lengths; then the zero weight sum), as [Quantile.wsq_idx] does.
     The inputs on which the former definition ([Results.quantile_old]) differed from the C13 model
     are kept as regression examples ([quantile_wsq_zero_sum_agree], [quantile_wsq_mismatch_agree]).
-    Then the C13 theorems (defining inequalities, scale invariance) are transferred to
+    Then the C13 theorems (defining inequalities, scale invariance, tie independence - as independence
+    of the argsort and as permutation invariance of the rows -, monotonicity in alpha, the end points
+    alpha = 0 / alpha = 1, and lower <= upper for the 2.5% / 97.5% interval ends) are transferred to
     [Results.quantile] / [quantiles_of] as corollaries.                                          *)
 From Coq Require Import String.
 From Coq Require Import ZArith QArith Qcanon Qabs Bool Arith Lia Lqa List Permutation Sorted.
@@ -295,6 +297,13 @@ Proof.
   destruct (Qle_bool (this q) (this a)); reflexivity.
 Qed.
 
+Lemma combine_map_this : forall (x w : list Qc),
+  combine (map this x) (map this w) = map (fun p => (this (fst p), this (snd p))) (combine x w).
+Proof. induction x as [|a x IH]; intros [|b w]; simpl; try reflexivity. now rewrite IH. Qed.
+
+Lemma map_fst_combine_c {A B} : forall (x : list A) (w : list B), length w = length x -> map fst (combine x w) = x.
+Proof. induction x as [|a x IH]; intros [|b w] H; simpl in *; try discriminate; try reflexivity. f_equal. apply IH. lia. Qed.
+
 Section WfC.
   Variables (x w : list Qc).
   Hypothesis Hl : length w = length x.
@@ -371,6 +380,103 @@ Section WfC.
     destruct (quantile x alpha (Some (map (Qcmult c) w))) as [b|]; [|discriminate].
     simpl in L1, L2. injection L1 as L1. injection L2 as L2. f_equal. apply this_inj. rewrite L1, L2. symmetry. exact Eq.
   Qed.
+  (** the characterisation of C13 ([qchar], product form) at the value returned *)
+  Lemma quantile_qchar (alpha : Qc) :
+    (0 <= alpha)%Qc -> (alpha <= 1)%Qc ->
+    exists q, quantile x alpha (Some w) = Some q /\ In q x
+              /\ qchar (combine (map this x) (map this w)) (this alpha) (this q).
+  Proof.
+    intros H0 H1.
+    destruct (wsq_idx_char (argsort (map this x)) (map this x) (map this w) (this alpha)
+                (argsort_sorting _) Hl' Hw' Hs' H0 H1) as (q' & E & Hin & Hc).
+    pose proof (quantile_is_wsq x alpha (Some w)) as L.
+    simpl in L. unfold wsq in L. rewrite E in L.
+    destruct (quantile x alpha (Some w)) as [q|]; [|discriminate]. simpl in L. injection L as L. subst q'.
+    exists q. split; [reflexivity|]. split; [|exact Hc].
+    apply in_map_iff in Hin. destruct Hin as (y & Ey & Hy).
+    assert (Eq : y = q) by (apply this_inj; rewrite Ey; reflexivity). now subst y.
+  Qed.
+
+  (** C13_quantile_tie_independent for [Results.quantile]: whatever order the argsort gives to equal
+      values (every sorting permutation [index] of the column), the C13 model run with that argsort
+      returns the value of [Results.quantile] (which sorts with its own stable insertion sort) *)
+  Theorem quantile_any_argsort index (alpha : Qc) :
+    sorting_perm index (map this x) -> (0 <= alpha)%Qc -> (alpha <= 1)%Qc ->
+    wsq_idx index (map this x) (this alpha) (Some (map this w)) = option_map this (quantile x alpha (Some w)).
+  Proof.
+    intros Hsp H0 H1.
+    destruct (wsq_idx_char index _ _ (this alpha) Hsp Hl' Hw' Hs' H0 H1) as (q1 & E1 & Hin1 & _).
+    destruct (wsq_idx_char (argsort (map this x)) _ _ (this alpha) (argsort_sorting _) Hl' Hw' Hs' H0 H1)
+      as (q2 & E2 & Hin2 & _).
+    pose proof (quantile_tie_independent (map this x) (map this w) Hl' Hw' Hs' _ _ (this alpha) q1 q2
+                  Hsp (argsort_sorting _) H0 H1 E1 E2) as Eq.
+    rewrite (quantile_is_wsq x alpha (Some w)). simpl. unfold wsq. rewrite E1, E2. f_equal.
+    apply in_map_iff in Hin1. destruct Hin1 as (y1 & <- & _).
+    apply in_map_iff in Hin2. destruct Hin2 as (y2 & <- & _).
+    f_equal. apply this_inj. exact Eq.
+  Qed.
+
+  (** C13_quantile_monotone for [Results.quantile] *)
+  Theorem quantile_monotone_c (a1 a2 q1 q2 : Qc) :
+    (0 <= a1)%Qc -> (a1 <= a2)%Qc -> (a2 <= 1)%Qc ->
+    quantile x a1 (Some w) = Some q1 -> quantile x a2 (Some w) = Some q2 -> (q1 <= q2)%Qc.
+  Proof.
+    intros H0 H12 H1 E1 E2.
+    pose proof (quantile_is_wsq x a1 (Some w)) as L1. pose proof (quantile_is_wsq x a2 (Some w)) as L2.
+    rewrite E1 in L1. rewrite E2 in L2. simpl in L1, L2. unfold wsq in L1, L2.
+    exact (quantile_monotone (map this x) (map this w) Hl' Hw' Hs' _ _ (this a1) (this a2) (this q1) (this q2)
+             (argsort_sorting _) (argsort_sorting _) H0 H12 H1 (eq_sym L1) (eq_sym L2)).
+  Qed.
+
+  (** alpha = 1: the largest value of positive weight (C13 has no theorem of its own for this end;
+      it is the content of [qchar] at alpha = 1:  W(<= q) >= W  and  W(< q) < W) *)
+  Theorem quantile_one_max (q : Qc) :
+    quantile x 1%Qc (Some w) = Some q ->
+    (forall y v, In (y, v) (combine x w) -> (0 < v)%Qc -> (y <= q)%Qc)
+    /\ exists v, In (q, v) (combine x w) /\ (0 < v)%Qc.
+  Proof.
+    intro E.
+    destruct (quantile_qchar 1%Qc) as (q0 & E0 & _ & (_ & B & C & _)); [discriminate | apply Qle_refl |].
+    rewrite E in E0. injection E0 as <-.
+    assert (C' := C eq_refl). clear C.
+    change (this 1%Qc) with 1 in *.
+    rewrite combine_map_this in *.
+    set (rows := map (fun p => (this (fst p), this (snd p))) (combine x w)) in *.
+    assert (Hn : nonneg rows).
+    { unfold rows. rewrite <- combine_map_this. now apply nonneg_combine. }
+    split.
+    - intros y v Hin Hv. destruct (Qlt_le_dec (this q) (this y)) as [L|G]; [exfalso | exact G].
+      assert (Hin' : In (this y, this v) rows) by (unfold rows; apply in_map_iff; exists (y, v); split; [reflexivity | exact Hin]).
+      destruct (in_split _ _ Hin') as (l1 & l2 & Er). rewrite Er in B, Hn.
+      unfold nonneg in Hn. apply Forall_app in Hn. destruct Hn as [Hn1 Hn2]. inversion Hn2 as [|? ? _ Hn2']; subst.
+      rewrite wle_wsel, wsel_app, wsel_cons, wtot_app, wtot_cons in B. cbn [fst snd] in B.
+      assert (F : Qle_bool (this y) (this q) = false) by (apply Qle_bool_false; exact L).
+      rewrite F in B.
+      pose proof (wsel_le_wtot (fun x0 => Qle_bool x0 (this q)) l1 Hn1).
+      pose proof (wsel_le_wtot (fun x0 => Qle_bool x0 (this q)) l2 Hn2').
+      assert (0 < this v) by exact Hv. lra.
+    - set (g := fun p : Q * Q => Qle_bool (fst p) (this q) && negb (Qltb (fst p) (this q)) && Qltb 0 (snd p)).
+      destruct (existsb g rows) eqn:Ex.
+      + apply existsb_exists in Ex. destruct Ex as (p & Hp & Gp). unfold g in Gp.
+        apply andb_true_iff in Gp. destruct Gp as [Gp G3]. apply andb_true_iff in Gp. destruct Gp as [G1 G2].
+        apply Qle_bool_iff in G1. apply negb_true_iff, Qltb_ge in G2. apply Qltb_lt in G3.
+        unfold rows in Hp. apply in_map_iff in Hp. destruct Hp as ([y v] & <- & Hyv). cbn [fst snd] in *.
+        assert (y = q) by (apply this_inj, Qle_antisym; assumption). subst y.
+        exists v. split; [exact Hyv | exact G3].
+      + exfalso.
+        assert (Eq : wle (this q) rows == wlt (this q) rows).
+        { unfold wle, wlt. apply qsum_map_eq. intros p Hp.
+          assert (Gp : g p = false).
+          { destruct (g p) eqn:Gp; [|reflexivity]. rewrite <- Ex. symmetry. apply existsb_exists. now exists p. }
+          unfold nonneg in Hn. rewrite Forall_forall in Hn. specialize (Hn p Hp).
+          unfold g in Gp.
+          destruct (Qltb (fst p) (this q)) eqn:T.
+          - apply Qltb_lt in T. assert (T' : Qle_bool (fst p) (this q) = true) by (apply Qle_bool_iff; lra).
+            rewrite T'. reflexivity.
+          - destruct (Qle_bool (fst p) (this q)) eqn:T'; [|reflexivity].
+            simpl in Gp. apply Qltb_ge in Gp. lra. }
+        lra.
+  Qed.
 End WfC.
 
 (** * ... and to the reported quantiles of a [Sample] ([quantiles_of]) *)
@@ -424,6 +530,144 @@ Proof.
   intros Hcols Hw Hs Hc H0 H1. unfold quantiles_of. f_equal. apply map_ext_in. intros kv Hin.
   rewrite Forall_forall in Hcols.
   now rewrite (quantile_scale_invariant_c (snd kv) w (eq_sym (Hcols kv Hin)) Hw Hs c alpha Hc H0 H1).
+Qed.
+
+(** * tie independence as permutation invariance; the end points; monotonicity of the reported quantiles *)
+
+Lemma qchar_perm xw xw' a q : Permutation xw xw' -> qchar xw a q -> qchar xw' a q.
+Proof.
+  intros Hp (A & B & C & D).
+  pose proof (wsel_perm (fun y => Qle_bool y q) _ _ Hp) as E1.
+  pose proof (wsel_perm (fun y => Qltb y q) _ _ Hp) as E2.
+  pose proof (wtot_perm _ _ Hp) as E3.
+  unfold qchar. rewrite !wle_wsel, !wlt_wsel in *. rewrite <- E1, <- E2, <- E3.
+  repeat split; auto.
+  intros Ea p Hin. apply (D Ea). eapply Permutation_in; [apply Permutation_sym, Hp | exact Hin].
+Qed.
+
+(** C13_quantile_tie_independent, in the form it takes for a model that sorts by itself: the result
+    depends on the multiset of (value, weight) rows only, not on the order of the sample (hence
+    not on the order of equal values either) *)
+Theorem quantile_permutation_invariant_c (x w x' w' : list Qc) (alpha : Qc) :
+  length w = length x -> length w' = length x' -> Permutation (combine x w) (combine x' w') ->
+  Forall (fun v => (0 <= v)%Qc) w -> (0 < sumq w)%Qc -> (0 <= alpha)%Qc -> (alpha <= 1)%Qc ->
+  quantile x' alpha (Some w') = quantile x alpha (Some w).
+Proof.
+  intros Hl Hl' Hp Hw Hs H0 H1.
+  assert (Hpw : Permutation w w').
+  { rewrite <- (map_snd_combine x w Hl), <- (map_snd_combine x' w' Hl'). now apply Permutation_map. }
+  assert (Hw' : Forall (fun v => (0 <= v)%Qc) w') by (eapply Permutation_Forall; eassumption).
+  assert (Hs' : (0 < sumq w')%Qc) by (rewrite <- (sumq_perm _ _ Hpw); exact Hs).
+  destruct (quantile_qchar x w Hl Hw Hs alpha H0 H1) as (q & E & Hin & Hc).
+  destruct (quantile_qchar x' w' Hl' Hw' Hs' alpha H0 H1) as (q' & E' & Hin' & Hc').
+  rewrite E, E'. f_equal. apply this_inj.
+  assert (HpQ : Permutation (combine (map this x') (map this w')) (combine (map this x) (map this w))).
+  { rewrite !combine_map_this. apply Permutation_map, Permutation_sym, Hp. }
+  apply (qchar_perm _ _ _ _ HpQ) in Hc'.
+  assert (Hlq : length (map this w) = length (map this x)) by now rewrite !map_length.
+  assert (Hwq : Forall (Qle 0) (map this w)).
+  { rewrite Forall_map. eapply Forall_impl; [|exact Hw]. intros v Hv. exact Hv. }
+  apply (qchar_unique (combine (map this x) (map this w)) (this alpha)); auto.
+  - now apply nonneg_combine.
+  - rewrite wtot_combine by exact Hlq. rewrite <- this_sumq. apply Qlt_le_weak. exact Hs.
+  - apply in_rows; [exact Hlq|]. eapply Permutation_in; [|apply in_map, Hin'].
+    apply (Permutation_map fst) in HpQ. rewrite !map_fst_combine_c in HpQ by (now rewrite !map_length). exact HpQ.
+  - apply in_rows; [exact Hlq | apply in_map, Hin].
+Qed.
+
+(** alpha = 0: the smallest stored value, whatever the weights (they are not read): [x[index[0]]] *)
+Lemma sumq_ones_pos n : (0 < sumq (repeat 1%Qc (S n)))%Qc.
+Proof.
+  rewrite sumq_ones. assert (E : this (qn (S n)) == inject_Z (Z.of_nat (S n))) by apply Qred_correct.
+  unfold Qclt. change (this 0%Qc) with 0. rewrite E. unfold Qlt. simpl. lia.
+Qed.
+
+Lemma ones_nonneg n : Forall (fun v => (0 <= v)%Qc) (repeat 1%Qc n).
+Proof. apply Forall_forall. intros v Hv. apply repeat_spec in Hv. subst v. discriminate. Qed.
+
+Lemma quantile_nil alpha w : quantile [] alpha w = None.
+Proof.
+  unfold quantile. destruct (qeqb alpha 0%Qc); [reflexivity|].
+  destruct w as [[|b w]|]; reflexivity.
+Qed.
+
+Theorem quantile_zero_min (x : list Qc) (w : option (list Qc)) (q : Qc) :
+  quantile x 0%Qc w = Some q -> In q x /\ forall y, In y x -> (q <= y)%Qc.
+Proof.
+  intro E. destruct x as [|a x]; [rewrite quantile_nil in E; discriminate|].
+  rewrite (quantile_zero_ignores_weights _ w (Some (repeat 1%Qc (length (a :: x))))) in E.
+  destruct (quantile_inequalities (a :: x) (repeat 1%Qc (length (a :: x))) (repeat_length _ _)
+              (ones_nonneg _) (sumq_ones_pos _) 0%Qc (Qle_refl _)) as (q0 & E0 & Hin & _ & _ & _ & D);
+    [discriminate|].
+  rewrite E in E0. injection E0 as <-. split; [exact Hin | exact (D eq_refl)].
+Qed.
+
+(** the weights the quantile is taken with: [weights=None] is unit weights *)
+Definition weights_ok (w : option (list Qc)) : Prop :=
+  match w with Some w => Forall (fun v => (0 <= v)%Qc) w /\ (0 < sumq w)%Qc | None => True end.
+
+Theorem quantile_monotone_opt (x : list Qc) (w : option (list Qc)) (a1 a2 q1 q2 : Qc) :
+  weights_ok w -> match w with Some w => length w = length x | None => True end ->
+  (0 <= a1)%Qc -> (a1 <= a2)%Qc -> (a2 <= 1)%Qc ->
+  quantile x a1 w = Some q1 -> quantile x a2 w = Some q2 -> (q1 <= q2)%Qc.
+Proof.
+  intros Hw Hl H0 H12 H1 E1 E2. destruct w as [w|].
+  - destruct Hw as [Hw Hs]. exact (quantile_monotone_c x w Hl Hw Hs a1 a2 q1 q2 H0 H12 H1 E1 E2).
+  - destruct x as [|a x]; [rewrite quantile_nil in E1; discriminate|].
+    rewrite quantile_none in E1, E2.
+    exact (quantile_monotone_c (a :: x) _ (repeat_length _ _) (ones_nonneg _) (sumq_ones_pos _)
+             a1 a2 q1 q2 H0 H12 H1 E1 E2).
+Qed.
+
+(** the reported quantiles are monotone in the level, column by column *)
+Theorem quantiles_of_monotone (s : dict) (w : option (list Qc)) (a1 a2 : Qc) (lo hi : list (string * Qc)) :
+  weights_ok w -> (0 <= a1)%Qc -> (a1 <= a2)%Qc -> (a2 <= 1)%Qc ->
+  (a1 = 0%Qc -> match w with Some w => Forall (fun kv => length (snd kv) = length w) s | None => True end) ->
+  quantiles_of s w a1 = Some lo -> quantiles_of s w a2 = Some hi ->
+  length lo = length s /\ length hi = length s
+  /\ forall j k l k' u, nth_error lo j = Some (k, l) -> nth_error hi j = Some (k', u) -> k = k' /\ (l <= u)%Qc.
+Proof.
+  intros Hw H0 H12 H1 Hz Hlo Hhi. unfold quantiles_of in Hlo, Hhi.
+  apply opt_all_nth in Hlo as [Ll Ln]. apply opt_all_nth in Hhi as [Lh Lnh].
+  rewrite map_length in Ll, Lh. split; [exact Ll|]. split; [exact Lh|].
+  intros j k l k' u Hj Hj'. apply Ln in Hj. apply Lnh in Hj'. rewrite nth_error_map in Hj, Hj'.
+  destruct (nth_error s j) as [[k0 col]|] eqn:Ej; [|discriminate]. simpl in Hj, Hj'.
+  destruct (quantile col a1 w) as [a|] eqn:Ea; [|discriminate].
+  destruct (quantile col a2 w) as [b|] eqn:Eb; [|discriminate].
+  simpl in Hj, Hj'. inversion Hj; inversion Hj'; subst. split; [reflexivity|].
+  apply (quantile_monotone_opt col w a1 a2 l u Hw); auto.
+  destruct w as [w|]; [|exact I].
+  destruct (Qc_eq_dec a1 0%Qc) as [E0|E0].
+  - specialize (Hz E0). rewrite Forall_forall in Hz. symmetry. exact (Hz (k', col) (nth_error_In _ _ Ej)).
+  - exact (quantile_some_length _ _ _ _ E0 Ea).
+Qed.
+
+(** [sample_means_and_95CIs]: the two ends of the interval of a parameter are the entries of
+    [sample_quantiles(alpha=0.025)] and [sample_quantiles(alpha=0.975)]: lower <= upper *)
+Definition ci_lower_level : Qc := Q2Qc (25 # 1000).
+Definition ci_upper_level : Qc := Q2Qc (975 # 1000).
+
+Theorem ci_ordered (s : dict) (w : option (list Qc)) (lo hi : list (string * Qc)) :
+  weights_ok w ->
+  quantiles_of s w ci_lower_level = Some lo -> quantiles_of s w ci_upper_level = Some hi ->
+  length lo = length s /\ length hi = length s
+  /\ forall j k l k' u, nth_error lo j = Some (k, l) -> nth_error hi j = Some (k', u) -> k = k' /\ (l <= u)%Qc.
+Proof.
+  intro Hw. apply (quantiles_of_monotone s w ci_lower_level ci_upper_level lo hi Hw); try discriminate.
+Qed.
+
+(** reordering the sample (the same permutation of every column and of the weights) does not change
+    the reported quantiles *)
+Theorem quantiles_of_permutation_invariant (s s' : dict) (w w' : list Qc) (alpha : Qc) :
+  Forall2 (fun kv kv' => fst kv = fst kv' /\ length (snd kv) = length w /\ length (snd kv') = length w'
+                         /\ Permutation (combine (snd kv) w) (combine (snd kv') w')) s s' ->
+  Forall (fun v => (0 <= v)%Qc) w -> (0 < sumq w)%Qc -> (0 <= alpha)%Qc -> (alpha <= 1)%Qc ->
+  quantiles_of s' (Some w') alpha = quantiles_of s (Some w) alpha.
+Proof.
+  intros HF Hw Hs H0 H1. unfold quantiles_of. f_equal.
+  induction HF as [|kv kv' s s' (Hk & Hl & Hl' & Hp) _ IH]; [reflexivity|].
+  cbn [map]. rewrite IH, <- Hk.
+  now rewrite (quantile_permutation_invariant_c (snd kv) w (snd kv') w' alpha (eq_sym Hl) (eq_sym Hl') Hp Hw Hs H0 H1).
 Qed.
 
 (** without weights every column is linked unconditionally *)
